@@ -1,2 +1,53 @@
-def model_check(ctx):
-    pass
+"""C02 model-checking jobs: FloatMC.tla over scaled-down formats (see the module's header).
+
+Every job is one TLC run; c02.run() executes them concurrently with the vector generation and
+judges them afterwards in the main thread."""
+import vt
+from vt import Infra
+
+CONV_MUTS = ["cvt-rounds", "no-cw-bracket", "row-u32-as-i32", "u64f80-no-fixup", "u64-no-sticky", "f2u32-narrow",
+             "row-f80f32-as-f64", "rank-float-double", "no-vararg-promotion"]
+MINI_MUTS = ["no-operand-swap", "ucomis-operands", "drop-setnp", "fsubp-fdivp", "sse-operand-order"]
+
+
+def jobs(ctx):
+    q = ctx.quick
+    J = []
+
+    def job(name, base, expect, workers, what, **consts):
+        J.append(dict(name=name, module="FloatMC", cfg=ctx.cfg("float", base, name=name, **consts), expect=expect,
+                      workers=workers, what=what, env=None))
+    job("mc-conv", "FloatMC_conv.cfg", "ok", 4, "a cast-table algorithm (Level I) differs from IntToFloat/FloatToInt/FloatToFloat (Level A)")
+    job("mc-mini", "FloatMC_mini.cfg", "ok", 4, "comparison / truth test / operand order (Level I) differs from the IEEE relation (Level A), or Level A is not the nearest-even value",
+        TypesC='{"float","ldouble"}' if q else '{"float","double","ldouble"}')
+    if not q:
+        job("mc-fmt", "FloatMC_mini.cfg", "ok", 4, "double arithmetic/comparison in a format of its own (p = 5)", P64=5, NEMIN64=4, EMAX64=5,
+            Kinds='{"arith","cmp"}', TypesC='{"double"}')
+        job("ctl-fmt-ss-sd", "FloatMC_mini.cfg", "reject", 2, "addss/addsd selection", P64=5, NEMIN64=4, EMAX64=5,
+            Kinds='{"arith"}', TypesC='{"double"}', MUT='"ss-sd-selection"')
+    # sensitivity controls: the pinned algorithms and wrong variants must be rejected
+    job("ctl-conv-pinned", "FloatMC_conv.cfg", "reject", 2, "pinned cast table (D05)", FIXED=False)
+    job("ctl-mini-pinned", "FloatMC_mini.cfg", "reject", 2, "pinned NaN handling (cmp_zero, long double ==)", FIXED=False)
+    cm = CONV_MUTS if not q else [CONV_MUTS[(ctx.seed + k * 4) % len(CONV_MUTS)] for k in range(2)]
+    mm = MINI_MUTS if not q else [MINI_MUTS[ctx.seed % len(MINI_MUTS)]]
+    for m in cm:
+        job("ctl-conv-" + m, "FloatMC_conv.cfg", "reject", 2, "wrong variant " + m, MUT='"%s"' % m)
+    for m in mm:
+        job("ctl-mini-" + m, "FloatMC_mini.cfg", "reject", 2, "wrong variant " + m, MUT='"%s"' % m)
+    return J
+
+
+def judge(ctx, j, res):
+    if j["expect"] == "reject":
+        if res.ok:
+            raise Infra("sensitivity control failed: TLC accepts %s (%s)" % (j["name"], j["what"]))
+        ctx.cov.setdefault("controls_rejected", []).append("%s: %s" % (j["name"], res.violated))
+        return
+    ctx.cov["states"] += res.distinct
+    ctx.cov["transitions"] += res.generated
+    if not res.ok:
+        p = ctx.replay_dir("tlc-" + j["name"])
+        open(p + "/counterexample.txt", "w").write(res.trace_text())
+        import json
+        json.dump(dict(kind="tlc", area="float", module=j["module"], cfg=open(j["cfg"]).read()), open(p + "/case.json", "w"))
+        ctx.report("tlc:%s:%s" % (j["name"], res.violated), j["what"], p)
